@@ -48,7 +48,10 @@ CACHE_MC = [  # cfg, expected status, what it shows
     ("acc_vk", "invariant", "accelerator omitted + value-derived ids survive compilations: incoherent"),
     ("acc_fresh", "ok", "accelerator varies but ids are per compilation: coherent"),
     ("acc_clear", "ok", "cache cleared at compilation start: coherent"),
-    ("assume", "ok", "all omitted fields vary under the environment assumption: coherent")]
+    ("assume", "ok", "all omitted fields vary under the environment assumption: coherent"),
+    ("fixed", "ok", "extended key (shape, IFM bits, flip) + reset at compilation start, everything varies: coherent"),
+    ("fixed_noclear", "invariant", "extended key without the reset: accelerator still omitted: incoherent"),
+    ("fixed_shortkey", "invariant", "reset at compilation start with the original key: incoherent inside one compilation")]
 
 
 def private_build(run):
@@ -485,7 +488,7 @@ def _main(run, tier):
             raise MachineryError("Cache_%s.cfg: expected %s, TLC says %s\n%s" % (cfg, want, r["status"], r["output"][-1500:]))
         if r["actions"].get("Cache.Encode", 0) == 0:
             raise MachineryError("vacuity: Cache.Encode never fired in Cache_%s.cfg" % cfg)
-        if cfg in ("acc_fresh", "acc_clear", "assume") and r["actions"].get("Cache.NewCompilation", 0) == 0:
+        if cfg in ("acc_fresh", "acc_clear", "assume", "fixed") and r["actions"].get("Cache.NewCompilation", 0) == 0:
             raise MachineryError("vacuity: Cache.NewCompilation never fired in Cache_%s.cfg" % cfg)
         run.add_mc("Cache(%s)" % cfg, r)
         shows[cfg] = "%s -> %s" % (what, "holds" if want == "ok" else "violated")
